@@ -75,6 +75,13 @@ example : validate E0 (.rangeF (some (.fin 0)) (some (.fin 8)) true false) (Val.
 /-- NaN is rejected by every bounded float Range (the F2 repair, e60e19b). -/
 example : validate E0 (.rangeF (some (.fin 0)) none false false) (Val.ofFloat .nan) = .traitError := by decide
 
+/-- Either(1, 2, Str) / Trait(7, 1, 2, Str): the definition's own default (None / 7) is not
+one of the listed constants and no member accepts it — rejected; with constants alone
+(Trait(7, 1, 2)) the default is a legal value. -/
+example : validate E0 (traitMaker Val.none [Val.ofInt 1, Val.ofInt 2] [.str]) Val.none = .traitError ∧
+    validate E0 (traitMaker (Val.ofInt 7) [Val.ofInt 1, Val.ofInt 2] [.str]) (Val.ofInt 7) = .traitError ∧
+    validate E0 (traitMaker (Val.ofInt 7) [Val.ofInt 1, Val.ofInt 2] []) (Val.ofInt 7) = .ok (Val.ofInt 7) := by decide
+
 /-- F42: Trait(float) stores the int 3. -/
 theorem C01_sound_fails_at_coerce :
     validate E0 (.coerceH .float) (Val.ofInt 3) = .ok (Val.ofInt 3) ∧
